@@ -151,7 +151,8 @@ def decode(wire, eof, method='GET', interim=0):
         d.extent = end
         d.coded = b''
         d.complete = True
-    elif te is not None and te.split(',')[-1].split(';')[0].strip().lower() == 'chunked':
+    elif te is not None and ([c.split(';')[0].strip().lower() for c in te.split(',') if c.strip()] or [''])[-1] == 'chunked':
+        # (RFC 7230 section 7: a recipient MUST parse and ignore a reasonable number of empty list elements)
         d.framing = 'chunked'
         coded = bytearray()
         p = 0
